@@ -8,11 +8,11 @@ CONSTANTS WChar = 2
  FIX_D04 = TRUE
  FIX_D10 = TRUE
  MUT = "none"
- Shapes = {"bin","un","cast","cond","cc","ptr","asg","test","opasg","incdec","aopasg","aincdec","case","enum","fcmp","d2l","d2r","d2u"}
+ Shapes = {"bin","un","cast","cond","cc","ptr","asg","test","opasg","incdec","aopasg","aincdec","case","enum","fcmp","d2l","d2r","d2u","fcc","fbin","fun","fcond","vla","bfinit","bfinitf"}
  SanityBin = TRUE
  OpAsgAll = TRUE
  D2Types = {"uchar","int","uint","long","ulong"}
  D2Ops1 = {"add","sub","mul","shl","shr","bor","lt"}
  D2Ops2 = {"add","div","shr","lt","land","bxor"}
-INVARIANTS TypeInv ValueInv ObjInv LoadInv ConstInv SanityInv PtrInv CaseInv EnumInv FltInv
+INVARIANTS TypeInv ValueInv ObjInv LoadInv ConstInv SanityInv PtrInv CaseInv EnumInv FltInv VlaInv BfInv
 CHECK_DEADLOCK FALSE
